@@ -4,12 +4,12 @@ use cgmath::prelude::*;
 use cgmath::{Point1, Point2, Point3, Quaternion, Vector1, Vector2, Vector3, Vector4};
 use num_traits::Float;
 
-use crate::clause;
-use crate::conv::*;
-use crate::fw::{Case, Clause};
-use crate::gen::{self, Rng, Tier};
-use crate::model::*;
-use crate::sc::{Ck, Rat, Sc};
+use cgv_core::clause;
+use cgv_core::conv::*;
+use cgv_core::fw::{Case, Clause};
+use cgv_core::gen::{self, Rng, Tier};
+use cgv_core::model::*;
+use cgv_core::sc::{Ck, Rat, Sc};
 
 fn rmul(a: Rat, b: Rat) -> Rat {
     Rat::new(a.n * b.n, a.d * b.d)
@@ -32,10 +32,15 @@ fn gen_pair(rng: &mut Rng, tier: Tier, n: usize) -> Case {
     let mut c = Case::new();
     if rng.chance(1, 2) {
         c.class = 0;
-        let u = rational_length(rng, tier, n);
-        let w = rational_length(rng, tier, n);
-        // v = u + w so that |u - v| is rational as well
-        let v: Vec<Rat> = (0..n).map(|i| Rat::new(u[i].n * w[i].d + w[i].n * u[i].d, u[i].d * w[i].d)).collect();
+        // v = u + w so that |u - v| is rational as well; the property needs non-zero lengths
+        let (u, v) = loop {
+            let u = rational_length(rng, tier, n);
+            let w = rational_length(rng, tier, n);
+            let v: Vec<Rat> = (0..n).map(|i| Rat::new(u[i].n * w[i].d + w[i].n * u[i].d, u[i].d * w[i].d)).collect();
+            if v.iter().any(|x| !x.is_zero()) && u.iter().any(|x| !x.is_zero()) {
+                break (u, v);
+            }
+        };
         c.push_r(&u).push_r(&v);
         c.nontrivial = gen::is_nontrivial(&u);
     } else {
